@@ -377,20 +377,42 @@ func (r *row) GetValueAtPath(path string) (Value, bool) {
 	keys := strings.Split(path, ".")
 
 	var row Row = r
-	for _, key := range keys {
+
+	for i, key := range keys {
 		value, exist := row.GetValue(key)
 		if !exist {
 			return nil, false
 		}
 
-		if cast, ok := value.(Row); ok {
-			row = cast
-		} else {
+		if i == len(keys)-1 {
 			return value, true
 		}
+
+		sub, ok := asRow(value)
+		if !ok {
+			return nil, false
+		}
+
+		row = sub
 	}
 
 	return row, true
+}
+
+// asRow returns the row a value is, or wraps (a nested object parsed from JSON is an Auto value
+// holding a row).
+func asRow(value Value) (Row, bool) {
+	if value == nil {
+		return nil, false
+	}
+
+	if sub, ok := value.(Row); ok {
+		return sub, true
+	}
+
+	sub, ok := value.Raw().(Row)
+
+	return sub, ok
 }
 
 func (r *row) FindValuesAtPath(path string) ([]Value, bool) {
@@ -401,23 +423,31 @@ func (r *row) FindValuesAtPath(path string) ([]Value, bool) {
 		return nil, false
 	}
 
-	if cast, ok := value.(Row); ok {
-		return cast.FindValuesAtPath(keys[1])
+	if len(keys) == 1 {
+		return []Value{value}, true
+	}
+
+	if sub, ok := asRow(value); ok {
+		return sub.FindValuesAtPath(keys[1])
+	}
+
+	if value == nil {
+		return nil, false
+	}
+
+	typedValue, ok := value.Raw().([]interface{})
+	if !ok {
+		return nil, false
 	}
 
 	result := []Value{}
 
-	switch typedValue := value.Raw().(type) {
-	case []interface{}:
-		for _, row := range typedValue {
-			if cast, ok := row.(Row); ok {
-				if values, exists := cast.FindValuesAtPath(keys[1]); exists {
-					result = append(result, values...)
-				}
+	for _, item := range typedValue {
+		if sub, ok := item.(Row); ok {
+			if values, exists := sub.FindValuesAtPath(keys[1]); exists {
+				result = append(result, values...)
 			}
 		}
-	default:
-		return []Value{value}, true
 	}
 
 	return result, true
